@@ -125,3 +125,15 @@ pub fn vec_slice_mut(v: &mut Vec<u8>, lo: usize, hi: usize) -> (r: &mut [u8])
 {
     &mut v[lo..hi]
 }
+
+// replace_with::replace_with_or_default_and_return(&mut d, |b| b.split_at(n)) (R6): the slice is taken out,
+// split, the head returned and the tail stored back.  Panics iff n exceeds the length.
+#[verifier::external_body]
+pub fn bytes_take_split<'a>(d: &mut &'a [u8], n: usize) -> (r: &'a [u8])
+    requires n <= old(d)@.len(),
+    ensures r@ == old(d)@.take(n as int), final(d)@ == old(d)@.skip(n as int),
+{
+    let (a, b) = std::mem::take(d).split_at(n);
+    *d = b;
+    a
+}
